@@ -142,19 +142,40 @@ fn run_thread(th: u64, seed: u64, nops: usize, faults: bool) -> (Vec<Value>, Vec
                 }
             }
         } else if roll < 85 {
+            // a panic anywhere in the code under test is data: it is recorded as an event (which the specification never allows)
             let i = &mut live[k];
-            i.ind.reset();
+            if catch_unwind(AssertUnwindSafe(|| i.ind.reset())).is_err() {
+                ev.push(json!({"op": "panic", "i": i.id, "during": "reset"}));
+                live.remove(k);
+                continue;
+            }
             i.t = 0;
             ev.push(json!({"op": "reset", "i": i.id}));
         } else if roll < 89 && live.len() < 8 {
             let id = next_id;
             next_id += 1;
-            let c = Inst { id, ind: live[k].ind.clone(), kind: live[k].kind.clone(), t: live[k].t, mtext: live[k].mtext, cfg: live[k].cfg.clone() };
+            let cl = match catch_unwind(AssertUnwindSafe(|| live[k].ind.clone())) {
+                Ok(c) => c,
+                Err(_) => {
+                    ev.push(json!({"op": "panic", "i": live[k].id, "during": "clone"}));
+                    live.remove(k);
+                    continue;
+                }
+            };
+            let c = Inst { id, ind: cl, kind: live[k].kind.clone(), t: live[k].t, mtext: live[k].mtext, cfg: live[k].cfg.clone() };
             cfgs.push((id, c.cfg.clone()));
             ev.push(json!({"op": "clone", "i": live[k].id, "j": id}));
             live.push(c);
         } else if roll < 92 {
-            if let Ok(bytes) = live[k].ind.save() {
+            let saved = match catch_unwind(AssertUnwindSafe(|| live[k].ind.save())) {
+                Ok(r) => r,
+                Err(_) => {
+                    ev.push(json!({"op": "panic", "i": live[k].id, "during": "serialize"}));
+                    live.remove(k);
+                    continue;
+                }
+            };
+            if let Ok(bytes) = saved {
                 let s = next_slot;
                 next_slot += 1;
                 ev.push(json!({"op": "save", "i": live[k].id, "s": s, "len": bytes.len()}));
@@ -165,7 +186,11 @@ fn run_thread(th: u64, seed: u64, nops: usize, faults: bool) -> (Vec<Value>, Vec
             }
         } else if roll < 95 && !blobs.is_empty() && live.len() < 8 {
             let b = &blobs[r.below(blobs.len() as u64) as usize];
-            if let Ok(ind) = Ind::restore(&b.1, &b.2) {
+            let restored = catch_unwind(AssertUnwindSafe(|| Ind::restore(&b.1, &b.2)));
+            if restored.is_err() {
+                ev.push(json!({"op": "panic", "i": -1, "during": "deserialize"}));
+            }
+            if let Ok(Ok(ind)) = restored {
                 let id = next_id;
                 next_id += 1;
                 cfgs.push((id, b.3.clone()));
@@ -174,7 +199,10 @@ fn run_thread(th: u64, seed: u64, nops: usize, faults: bool) -> (Vec<Value>, Vec
             }
         } else if roll < 98 {
             let i = &live[k];
-            ev.push(json!({"op": "query", "i": i.id, "disp": i.ind.display(), "per": i.ind.period().map(|p| p as i64).unwrap_or(-1), "mtext": i.mtext}));
+            match catch_unwind(AssertUnwindSafe(|| (i.ind.display(), i.ind.period(), i.ind.debug().len()))) {
+                Ok((d, p, _)) => ev.push(json!({"op": "query", "i": i.id, "disp": d, "per": p.map(|p| p as i64).unwrap_or(-1), "mtext": i.mtext})),
+                Err(_) => ev.push(json!({"op": "panic", "i": i.id, "during": "display"})),
+            }
         } else if live.len() > 1 {
             ev.push(json!({"op": "drop", "i": live[k].id}));
             live.remove(k);
